@@ -111,15 +111,25 @@ func constCharsOf(c *core.Ctx, rel, varName string) (string, token.Pos, bool) {
 				if p.TypesInfo.Defs[id] != obj || i >= len(vs.Values) {
 					continue
 				}
-				// the range loop inside the initialiser ranges over a constant string
+				// the table is built from one constant string: whatever builds it (a loop in a function literal, a helper
+				// such as newByteSet(chars), a composite of both), the initialiser mentions exactly one long string constant
+				seen := map[string]token.Pos{}
 				ast.Inspect(vs.Values[i], func(m ast.Node) bool {
-					if rs, isRange := m.(*ast.RangeStmt); isRange {
-						if cv := core.ConstOf(p.TypesInfo, rs.X); cv != nil && cv.Kind() == constant.String {
-							found, ok, pos = constant.StringVal(cv), true, rs.Pos()
+					if e, isExpr := m.(ast.Expr); isExpr {
+						if cv := core.ConstOf(p.TypesInfo, e); cv != nil && cv.Kind() == constant.String && len(constant.StringVal(cv)) >= 8 {
+							if _, dup := seen[constant.StringVal(cv)]; !dup {
+								seen[constant.StringVal(cv)] = e.Pos()
+							}
+							return false
 						}
 					}
 					return true
 				})
+				if len(seen) == 1 {
+					for k, v := range seen {
+						found, ok, pos = k, true, v
+					}
+				}
 			}
 			return true
 		})
@@ -159,7 +169,7 @@ func runR011(c *core.Ctx) {
 		ast.Inspect(fd.Body, func(n ast.Node) bool {
 			switch x := n.(type) {
 			case *ast.IndexExpr:
-				if core.ObjOf(inf, x.X) == tabObj {
+				if mentions(inf, x.X, tabObj) {
 					usesTab = true
 				}
 			case *ast.CallExpr:
@@ -1012,34 +1022,39 @@ func runR032(c *core.Ctx) {
 		f := mustFunc(c, "restlicodec", "(*"+recv+").WriteFloat64")
 		fd := c.M.Decl(f)
 		got := map[string]string{}
+		par := core.Parents(fd)
+		// every emission of one of the reserved strings, with the condition that guards it (switch clause, if / else-if
+		// chain or early return; comparison with MaxFloat64, math.IsInf / math.IsNaN, or v != v)
 		ast.Inspect(fd.Body, func(n ast.Node) bool {
-			cc, ok := n.(*ast.CaseClause)
-			if !ok || len(cc.List) != 1 {
+			call, ok := n.(*ast.CallExpr)
+			if !ok || len(call.Args) != 1 {
 				return true
 			}
-			kind := ""
-			cond := core.ExprString(cc.List[0])
-			switch {
-			case strings.Contains(cond, "> math.MaxFloat64"):
-				kind = "Infinity"
-			case strings.Contains(cond, "< -math.MaxFloat64"):
-				kind = "-Infinity"
-			case strings.Contains(cond, "IsNaN") || strings.Contains(cond, "v != v"):
-				kind = "NaN"
-			}
-			if kind == "" {
+			cv := core.ConstOf(cinf, call.Args[0])
+			if cv == nil || cv.Kind() != constant.String {
 				return true
 			}
-			ast.Inspect(cc, func(m ast.Node) bool {
-				if call, ok := m.(*ast.CallExpr); ok && len(call.Args) == 1 {
-					if cv := core.ConstOf(cinf, call.Args[0]); cv != nil && cv.Kind() == constant.String {
-						if cf := core.Callee(cinf, call); cf != nil {
-							got[kind] = cf.Name() + ":" + constant.StringVal(cv)
-						}
-					}
+			str := constant.StringVal(cv)
+			if str != "Infinity" && str != "-Infinity" && str != "NaN" {
+				return true
+			}
+			cf := core.Callee(cinf, call)
+			if cf == nil {
+				return true
+			}
+			guardKind := ""
+			core.GuardedByFact(cinf, par, core.EnclosingStmt(par, call), func(f core.Fact) bool {
+				if k := specialFloatFact(cinf, f); k != "" {
+					guardKind = k
+					return true
 				}
-				return true
-			})
+				return false
+			}, nil)
+			if guardKind == str {
+				got[str] = cf.Name() + ":" + str
+			} else if _, dup := got[str]; !dup {
+				got[str] = cf.Name() + ":" + str + " under the test for " + guardKind
+			}
 			return true
 		})
 		wantFn := "String"
@@ -1150,4 +1165,75 @@ func isBytesDecoder(c *core.Ctx, f *types.Func) bool {
 	}
 	sig := f.Type().(*types.Signature)
 	return sig.Recv() == nil && sig.Params().Len() == 2 && sig.Results().Len() == 2
+}
+
+// specialFloatFact classifies a condition known to hold as the test for one of the special float values:
+// "Infinity" (v > math.MaxFloat64, math.IsInf(v, 1)), "-Infinity" (v < -math.MaxFloat64, math.IsInf(v, -1)),
+// "NaN" (math.IsNaN(v), v != v); "" otherwise.
+func specialFloatFact(inf *types.Info, f core.Fact) string {
+	switch x := core.Unparen(f.Expr).(type) {
+	case *ast.CallExpr:
+		cf := core.Callee(inf, x)
+		if !f.Val || cf == nil {
+			return ""
+		}
+		if core.IsFunc(cf, "math", "IsNaN") {
+			return "NaN"
+		}
+		if core.IsFunc(cf, "math", "IsInf") && len(x.Args) == 2 {
+			if v := core.ConstOf(inf, x.Args[1]); v != nil {
+				switch v.ExactString() {
+				case "1":
+					return "Infinity"
+				case "-1":
+					return "-Infinity"
+				}
+			}
+		}
+	case *ast.BinaryExpr:
+		isMax := func(e ast.Expr) (neg, ok bool) {
+			e = core.Unparen(e)
+			if u, isU := e.(*ast.UnaryExpr); isU && u.Op == token.SUB {
+				_, ok := isMaxFloat(inf, u.X)
+				return true, ok
+			}
+			_, ok = isMaxFloat(inf, e)
+			return false, ok
+		}
+		op := x.Op
+		if !f.Val {
+			switch op {
+			case token.LEQ:
+				op = token.GTR
+			case token.GEQ:
+				op = token.LSS
+			case token.EQL:
+				op = token.NEQ
+			default:
+				return ""
+			}
+		}
+		switch op {
+		case token.GTR:
+			if neg, ok := isMax(x.Y); ok && !neg {
+				return "Infinity"
+			}
+		case token.LSS:
+			if neg, ok := isMax(x.Y); ok && neg {
+				return "-Infinity"
+			}
+		case token.NEQ:
+			if core.SameExpr(inf, x.X, x.Y) {
+				return "NaN"
+			}
+		}
+	}
+	return ""
+}
+
+func isMaxFloat(inf *types.Info, e ast.Expr) (struct{}, bool) {
+	if o := core.ObjOf(inf, e); o != nil && o.Pkg() != nil && o.Pkg().Path() == "math" && o.Name() == "MaxFloat64" {
+		return struct{}{}, true
+	}
+	return struct{}{}, false
 }
